@@ -83,15 +83,41 @@ class Stats:
                     exhaustive=self.exhaustive, wall=self.wall)
 
 
+class CaseTimeout(BaseException):
+    pass
+
+
+CASE_TIMEOUT = float(os.environ.get("VERIF_CASE_TIMEOUT", "900"))
+
+
+def _alarm(signum, frame):
+    raise CaseTimeout()
+
+
 def run_body(law, case, stats, findings_open, count=True):
     """Run one case.  Returns None or a failure record."""
     import numpy as np
+    import signal
     ctx = Ctx(findings_open)
+    armed = False
     try:
+        # watchdog: a single case normally takes milliseconds to seconds (the slowest ones,
+        # large Coxeter automata, tens of seconds); a library call that does not come back
+        # within CASE_TIMEOUT (15 min) is reported as a violation ("a result is due")
+        try:
+            signal.signal(signal.SIGALRM, _alarm)
+            signal.setitimer(signal.ITIMER_REAL, CASE_TIMEOUT)
+            armed = True
+        except (ValueError, AttributeError):
+            pass
         with warnings.catch_warnings():
             warnings.simplefilter("ignore")
             with np.errstate(all="ignore"):
                 law.body(case, ctx)
+    except CaseTimeout:
+        return dict(kind="timeout", law=law.name,
+                    msg="the case did not finish within %.0f s (library call hangs?)" %
+                        CASE_TIMEOUT, detail={}, case=case)
     except Violation as v:
         return dict(kind="violation", law=law.name, msg=v.msg, detail=v.detail,
                     case=case)
@@ -108,6 +134,9 @@ def run_body(law, case, stats, findings_open, count=True):
                         case=case)
         raise HarnessError("harness error in law %s: %s\n%s" % (
             law.name, e, traceback.format_exc())) from e
+    finally:
+        if armed:
+            signal.setitimer(signal.ITIMER_REAL, 0)
     if count:
         stats.evaluations += 1
         stats.units += ctx.units
@@ -151,6 +180,9 @@ def run_hypothesis(law, tier, seed, shard, findings_open, budget=None):
         f = run_body(law, case, stats, findings_open)
         if f is not None:
             state["fail"] = f
+            if f["kind"] == "timeout":
+                # do not let Hypothesis shrink a hanging case (every attempt would hang again)
+                raise CaseTimeout()
             raise Violation(f["msg"])
 
     t0 = time.time()
